@@ -47,7 +47,25 @@ NOT_APPLICABLE = {
 PENDING_REASON = "static rule set designed (DESIGN.md §4) but not yet built/triaged to be silent-and-sound on the unchanged tree; not claimed until it is"
 
 
+def described():
+    import subprocess
+    try:
+        out = subprocess.run([os.path.join(HERE, "bin/pdfcpu-verif"), "describe"], capture_output=True, text=True, check=True).stdout
+        return {d["id"]: d for d in json.loads(out)}
+    except Exception as e:
+        print("warning: cannot run pdfcpu-verif describe:", e, file=sys.stderr)
+        return {}
+
+# properties whose check exists in the checker but is deliberately not registered (with the reason)
+HELD_BACK = {}
+
 def main():
+    for pid, d in described().items():
+        if pid in CLAIMED or pid in HELD_BACK:
+            continue
+        tech = d.get("technique") or "repository-specific rules over go/types + go/ssa (see evidence rule list)"
+        note = d.get("note") or ("Assumptions: " + "; ".join(d.get("assumptions") or []))
+        CLAIMED[pid] = (d["level"], d["explanation"], note, tech, "DESIGN.md §4 " + pid)
     props = [json.loads(l) for l in open(os.path.join(HERE, "properties.jsonl"))]
     ids = [p["id"] for p in props]
     checks, na = [], []
@@ -66,7 +84,7 @@ def main():
                 "technique": "static analysis: " + tech,
             })
         else:
-            na.append({"property_id": pid, "reason": NOT_APPLICABLE.get(pid, PENDING_REASON)})
+            na.append({"property_id": pid, "reason": HELD_BACK.get(pid) or NOT_APPLICABLE.get(pid, PENDING_REASON)})
     m = {
         "version": 1,
         "setup_cmd": "./setup.sh",
